@@ -72,3 +72,6 @@ CORPUS += [
 CORPUS += [
     M("frames-trimmed-to-length-byte", "msmart/base_device.py", "        return responses\n", "        return [r[:r[1] + 1] if len(r) > 1 else r for r in responses]\n"),
 ]
+CORPUS += [
+    M("supported-for-empty-exchange", D, "        self._supported = len(valid_responses) > 0", "        self._supported = len(valid_responses) >= 0"),
+]
